@@ -479,6 +479,53 @@ func runC14(seed int64, tier string, sc *Script) map[string]any {
 		}
 		reg.Close()
 	}
+	// (a5) SetReferrersCapability: every sequence of up to five calls on a fresh Repository,
+	// and the same after a ping against a registry with / without the Referrers API has
+	// settled the capability: which calls are refused
+	for _, settled := range []string{"fresh", "pinged-supported", "pinged-unsupported"} {
+		for n := 1; n <= 5; n++ {
+			for bits := 0; bits < 1<<n; bits++ {
+				sc.Case("capability-sequence")
+				sc.NonTrivial()
+				var reg *fakeRegistry
+				host := "registry.invalid"
+				if settled != "fresh" {
+					reg = newFakeRegistry(regProfile{ReferrersAPI: settled == "pinged-supported", DigestHeaders: true})
+					host = reg.Host()
+				}
+				repo, err := remote.NewRepository(host + "/test/repo")
+				if err != nil {
+					panic(err)
+				}
+				repo.PlainHTTP = true
+				if reg != nil {
+					// a listing pings the Referrers API and records what it learns
+					sb := []byte(`{"schemaVersion":2,"cap":"subject"}`)
+					sub := content.NewDescriptorFromBytes(ocispec.MediaTypeImageManifest, sb)
+					repo.Push(ctx, sub, bytes.NewReader(sb))
+					repo.Referrers(ctx, sub, "", func([]ocispec.Descriptor) error { return nil })
+				}
+				var calls, outs []string
+				for i := 0; i < n; i++ {
+					c := bits>>i&1 == 1
+					calls = append(calls, fmt.Sprint(btoi(c)))
+					if err := repo.SetReferrersCapability(c); err != nil {
+						if !errors.Is(err, remote.ErrReferrersCapabilityAlreadySet) {
+							panic(err)
+						}
+						outs = append(outs, "refused")
+					} else {
+						outs = append(outs, "ok")
+					}
+				}
+				sc.Op(strings.Join(outs, ","), "rf setcap start=%s calls=%s", settled, strings.Join(calls, ","))
+				evals++
+				if reg != nil {
+					reg.Close()
+				}
+			}
+		}
+	}
 	// (b) end to end under concurrency
 	rounds := 12
 	if tier == "thorough" {
